@@ -126,6 +126,7 @@ def run_property(pid, tier, seed):
     solver_time = 0.0
     backends = defaultdict(int)
     failed = []
+    candidates = []
     for oid, lst in agg.items():
         exp = lst[0][0].expect_sat
         sts = [r['status'] for _, r in lst]
@@ -147,6 +148,10 @@ def run_property(pid, tier, seed):
         elif any(s == 'sat' for s in sts):
             ob, r = next((o, r) for o, r in lst if r['status'] == 'sat')
             failed.append((oid, ob, r))
+        elif any(s == 'sat?' for s in sts):
+            # candidate counterexample of the quantifier-free part only: believed only if confirmed natively
+            ob, r = next((o, r) for o, r in lst if r['status'] == 'sat?')
+            candidates.append((oid, ob, r))
         elif any(s == 'disagree' for s in sts):
             res.errors.append(f"back ends disagree on {oid}")
         else:
@@ -161,7 +166,8 @@ def run_property(pid, tier, seed):
     # ---- 4. counterexamples -> replay on the real code ----------------------------------------------------
     os.makedirs(os.path.join(HERE, 'replays'), exist_ok=True)
     kf = known_findings()
-    for oid, ob, r in failed:
+    for oid, ob, r in failed + candidates:
+        is_candidate = r['status'] == 'sat?'
         witness = None
         confirmed = None
         dec = getattr(P, 'DECODE', None)
@@ -197,7 +203,10 @@ def run_property(pid, tier, seed):
         json.dump(rec, open(path, 'w'), indent=1, default=str)
         entry = {'what': oid, 'replay': path, 'confirmed': bool(confirmed), 'detail': ob.meta.get('detail')}
         k = next((f for f in kf if finding_matches(f, pid, obligation=oid)), None)
-        if k:
+        if is_candidate and not confirmed:
+            res.undecided.append(f"{oid}: solver answered unknown; a model of the quantifier-free part exists but was not "
+                                 f"confirmed on the real code (see {path})")
+        elif k:
             res.known.append((k, entry))
         else:
             res.violations.append(entry)
